@@ -175,8 +175,8 @@ fn check_limits(q: &str, d: u32, probe_keys: &[String], ev: &mut Ev) {
 }
 
 pub fn run(ctx: &Ctx) -> i32 {
-    let queries = strings(&ALPHA, 3);
-    let keys = strings(&ALPHA, ctx.tier.pick(3, 4));
+    let queries = strings(&ALPHA, ctx.tier.pick(3, 4));
+    let keys = strings(&ALPHA, 4);
     let dmax = 2u32;
     let mut sorted: Vec<Vec<u8>> = keys.iter().map(|k| k.as_bytes().to_vec()).collect();
     sorted.sort();
@@ -198,7 +198,7 @@ pub fn run(ctx: &Ctx) -> i32 {
                 ev.count("limit-series");
             }
             if qi % 131 == 77 {
-                ev.sample(J::obj(vec![("query", J::s(q.clone())), ("distances", J::s("0,1,2")), ("keys", J::s(format!("all {} strings over {:?} up to length {}", keys.len(), ALPHA, ctx.tier.pick(3, 4))))]));
+                ev.sample(J::obj(vec![("query", J::s(q.clone())), ("distances", J::s("0,1,2")), ("keys", J::s(format!("all {} strings over {:?} up to length {}", keys.len(), ALPHA, 4)))]));
             }
         }
         // random longer queries/keys over the alphabet + ASCII + other scripts
@@ -261,7 +261,7 @@ pub fn run(ctx: &Ctx) -> i32 {
         ev,
         Spec {
             level: "exploration",
-            rule: "one evaluation = one (query, distance, key) triple: is_match after feeding the key's UTF-8 bytes to Levenshtein::new(q,d) compared with (edit distance over scalar values <= d); ALL q in A^<=3 (585) x d in {0,1,2} x ALL k in A^<=3 (585; thorough A^<=4 = 4681) for A = {a, é, ê, ☃, ☄, 😀, 😁, 𝄞} (1-4 byte encodings, pairs sharing 1, 2 and 3 leading bytes), plus Set::search over the set of all keys for every (q,d), random queries/keys up to 8 scalars over ASCII + Latin/Cyrillic/CJK/emoji/boundary code points with d<=3, long queries against the default state limit, and new_with_limit series (limit 1.. first success + 2: error payload == limit, monotone, behaviour equal to the default-limit automaton, no state id >= limit); non-trivial = every triple; distinct = by construction / fingerprint of (q,d)",
+            rule: "one evaluation = one (query, distance, key) triple: is_match after feeding the key's UTF-8 bytes to Levenshtein::new(q,d) compared with (edit distance over scalar values <= d); ALL q in A^<=3 (585; thorough A^<=4 = 4681) x d in {0,1,2} x ALL k in A^<=4 (4681) for A = {a, é, ê, ☃, ☄, 😀, 😁, 𝄞} (1-4 byte encodings, pairs sharing 1, 2 and 3 leading bytes), plus Set::search over the set of all keys for every (q,d), random queries/keys up to 8 scalars over ASCII + Latin/Cyrillic/CJK/emoji/boundary code points with d<=3, long queries against the default state limit, and new_with_limit series (limit 1.. first success + 2: error payload == limit, monotone, behaviour equal to the default-limit automaton, no state id >= limit); non-trivial = every triple; distinct = by construction / fingerprint of (q,d)",
             assumptions: vec!["keys are valid UTF-8 (the statement's domain)".into()],
             floors: vec![("triples:within-distance", 10_000), ("triples:beyond-distance", 10_000), ("triples:distinct-scalars-sharing-a-utf8-prefix", 10_000), ("set-searches", 1000), ("limit-probes:TooManyStates", 100), ("limit-probes:Ok", 30)],
             exhaustive: Some(true),
